@@ -8,6 +8,7 @@ the Lean model Qv.Model.C05 evaluates the same tree exactly (Gaussian integers).
 oracle combines the *values of the leaves* at t with NumPy, and checks matmul / expect against the
 value for every state storage format.
 """
+import itertools
 import json
 import os
 import pickle
@@ -46,14 +47,14 @@ def gen_tree(rng, depth, tier):
             return {"k": "const", "m": rnd_m(rng)}
         if k < 0.65:
             deg = int(rng.integers(0, 3))
-            style = str(rng.choice(["func", "str", "array0", "array1", "func_args", "func_kwonly", "func_dict", "number", "constcoeff"]))
+            style = str(rng.choice(["func", "str", "array0", "array1", "func_args", "func_kwonly", "func_dict", "number", "constcoeff", "array0n"]))
             c = [[int(a), int(b)] for a, b in rng.integers(-2, 3, size=(deg + 1, 2))]
-            if style == "array0" or style == "array1":
+            if style == "array0" or style == "array1" or style == "array0n":
                 c = c[:2]
             if style in ("number", "constcoeff"):
                 c = c[:1]
             return {"k": "evo", "m": rnd_m(rng), "c": c, "style": style,
-                    "grid": "u" if style == "array0" else str(rng.choice(["u", "a", "b", "c", "d", "e"]))}
+                    "grid": "u" if style == "array0" else (str(rng.choice(["a", "b", "c"])) if style == "array0n" else str(rng.choice(["u", "a", "b", "c", "d", "e"])))}
         return {"k": "func", "a": rnd_m(rng), "b": rnd_m(rng), "style": str(rng.choice(["plain", "args", "shared", "shared", "kwonly", "dictargs", "defaulted", "defaulted"]))}
     if rng.random() < 0.12:
         # several terms on the same operator (merged by compress), sampled on different grids
@@ -97,6 +98,10 @@ def model_tree(node):
         return {"k": "mul", "x": model_tree(node["x"]), "y": {"k": "evo", "m": [1, 0, 0, 0, 0, 0, 1, 0], "c": node["c"]}}
     if k == "smul":
         return {"k": "smul", "z": node["z"], "x": model_tree(node["x"])}
+    if k == "lmap":
+        # a general linear map given as a Python callable: a product with a constant operator, for the model
+        kc = {"k": "const", "m": node["m"]}
+        return {"k": "mul", "x": kc, "y": model_tree(node["x"])} if node["side"] == "left" else {"k": "mul", "x": model_tree(node["x"]), "y": kc}
     out = {"k": k}
     for kk in ("x", "y"):
         if kk in node:
@@ -151,6 +156,12 @@ def build_real(node):
             expr = " + ".join(f"({a}+{b}j)*t**{k}" for k, (a, b) in enumerate(c))
             return qutip.QobjEvo([[q, expr]])
         tl = np.array(GRIDS[node.get("grid", "u")], dtype=float)
+        if st == "array0n":
+            # a step function on unequally spaced sample times, with samples that vary: only looked at *at* the sample times,
+            # where it takes the sample of that time (the value of the polynomial the samples were taken from)
+            cc = (c + [[0, 0]])[:2]
+            node["c"] = cc
+            return qutip.QobjEvo([[q, np.array([poly(cc, t) for t in tl])]], tlist=tl, order=0)
         if st == "array1":
             cc = (c + [[0, 0]])[:2]
             vals = np.array([poly(cc, t) for t in tl])
@@ -183,6 +194,11 @@ def build_real(node):
     if k in ("add", "sub", "mul"):
         x, y = build_real(node["x"]), build_real(node["y"])
         return x + y if k == "add" else (x - y if k == "sub" else x @ y)
+    if k == "lmap":
+        B = qutip.Qobj(mat(node["m"]))
+        x = build_real(node["x"])
+        f = (lambda q, B=B: B @ q) if node["side"] == "left" else (lambda q, B=B: q @ B)
+        return f(x) if isinstance(x, qutip.Qobj) else x.linear_map(f)
     if k == "neg":
         return -build_real(node["x"])
     if k == "smul":
@@ -234,7 +250,7 @@ def value_oracle(node, t):
     if k == "const":
         return mat(node["m"])
     if k == "evo":
-        tt = min(max(t, -6), 6) if node["style"].startswith("array") else t
+        tt = min(max(t, -6), 6) if node["style"].startswith("array") else t          # (array0n is only queried at its sample times)
         return poly(node["c"], tt) * mat(node["m"])
     if k == "func":
         return mat(node["a"]) + t * mat(node["b"])
@@ -242,6 +258,9 @@ def value_oracle(node, t):
         return value_oracle(node["x"], t)
     if k == "cmul":
         return poly(node["c"], t) * value_oracle(node["x"], t)
+    if k == "lmap":
+        vx = value_oracle(node["x"], t)
+        return mat(node["m"]) @ vx if node["side"] == "left" else vx @ mat(node["m"])
     if k == "neg":
         return -value_oracle(node["x"], t)
     if k == "smul":
@@ -411,11 +430,48 @@ def run(tier, seed, replay):
                     {"k": "tr", "g": "dag", "x": {"k": "mul", "x": outer_k, "y": tr_}}][shape_]
             ts = sorted(set(int(x) for x in rng.integers(-5, 6, size=3)))
             cases.append({"t": ts, "tree": tree})
+        # second structured family: the same involution (adjoint, transpose, conjugate) on both sides of a map that does not
+        # commute with it - a product with a constant operator on the left or on the right, a complex factor - on leaves that
+        # are operator-valued functions (whose pending maps are kept on a stack)
+        def konst():
+            return {"k": "const", "m": rnd_m(rng)}
+
+        def wrap(kind_, x_):
+            if kind_ == "left":
+                return {"k": "mul", "x": konst(), "y": x_}
+            if kind_ == "right":
+                return {"k": "mul", "x": x_, "y": konst()}
+            if kind_ == "both":
+                return {"k": "mul", "x": konst(), "y": {"k": "mul", "x": x_, "y": konst()}}
+            if kind_ in ("lmap-left", "lmap-right"):
+                return {"k": "lmap", "m": rnd_m(rng), "side": kind_.split("-")[1], "x": x_}
+            return {"k": "smul", "z": [int(rng.integers(-2, 3)), int(rng.integers(1, 3))], "side": "left", "x": x_}
+        for g1, g2 in itertools.product(("dag", "trans", "conj"), repeat=2):
+            for kind_ in ("left", "right", "both", "smul", "lmap-left", "lmap-right"):
+                if tier == "quick" and g1 != g2 and rng.random() < 0.5:
+                    continue
+                leaf = leaf_func() if rng.random() < 0.8 else leaf_cplx()
+                t1 = {"k": "tr", "g": g2, "x": wrap(kind_, {"k": "tr", "g": g1, "x": leaf})}
+                t2 = {"k": "tr", "g": g1, "x": wrap(str(rng.choice(["left", "right", "smul", "lmap-left", "lmap-right"])), t1)}
+                for tree in (t1, t2):
+                    cases.append({"t": sorted(set(int(x) for x in rng.integers(-5, 6, size=3))), "tree": tree})
         n = 250 if tier == "quick" else 2500
         for _ in range(n):
             depth = int(rng.integers(1, 5 if tier == "quick" else 7))
             ts = sorted(set(int(x) for x in rng.integers(-5, 6, size=4))) + [int(rng.choice([-9, 8, 11]))]
             cases.append({"t": ts, "tree": gen_tree(rng, depth, tier)})
+    def step_grids(node, acc):
+        if isinstance(node, dict):
+            if node.get("k") == "evo" and node.get("style") == "array0n":
+                acc.append(set(GRIDS[node["grid"]]))
+            for vv in node.values():
+                step_grids(vv, acc)
+        return acc
+    for c in cases:
+        gs = step_grids(c["tree"], [])
+        if gs:
+            common = sorted(set.intersection(*gs))
+            c["t"] = [int(x) for x in common if -6 <= x <= 6]
     reals = []
     for c in cases:
         try:
